@@ -861,6 +861,24 @@ def skip_edges(ck: Check, rule: str) -> None:
             vds = fm.value_defs(e.nid, e.cfgn)
             if vds and all(d.id in grown or (isinstance(v_, ast.Call) and callee_name(v_) == "_ensure_node") for d, v_ in vds):
                 continue       # a minimal trap space taken from the list (created right here)
+            # ... or taken, in a later loop, from the list of (id, trap) pairs that such a creation filled
+            lps_e = [l for l in fm.cfg.enclosing_loops(e.cfgn) if isinstance(l, ast.For)]
+            if lps_e and isinstance(lps_e[0].iter, ast.Name) and isinstance(lps_e[0].target, ast.Tuple) and lps_e[0].target.elts \
+                    and text(lps_e[0].target.elts[0]) == e.nid:
+                sdl = fm.single_def(lps_e[0].iter.id, fm.cfg.loop_header[lps_e[0]])
+                lv = sdl[1] if sdl else None
+                if isinstance(lv, ast.ListComp) and len(lv.generators) == 1 and not lv.generators[0].ifs and isinstance(lv.elt, ast.Tuple) \
+                        and lv.elt.elts and isinstance(lv.elt.elts[0], ast.Call) and callee_name(lv.elt.elts[0]) == "_ensure_node":
+                    continue
+                if sdl is not None and is_empty_list(lv):
+                    apps_ = [c_ for c_ in own_walk(f.node) if isinstance(c_, ast.Call) and isinstance(c_.func, ast.Attribute)
+                             and c_.func.attr == "append" and text(c_.func.value) == lps_e[0].iter.id]
+                    if apps_ and all(isinstance(c_.args[0], ast.Tuple) and c_.args[0].elts and (
+                            (isinstance(c_.args[0].elts[0], ast.Call) and callee_name(c_.args[0].elts[0]) == "_ensure_node") or
+                            (isinstance(c_.args[0].elts[0], ast.Name) and any(isinstance(v2, ast.Call) and callee_name(v2) == "_ensure_node"
+                                                                               for _d2, v2 in fm.value_defs(c_.args[0].elts[0].id, fm.cfgn(c_)))))
+                                     for c_ in apps_):
+                        continue
             pc = fm.pc(e.cfgn)
             space = f"FIELD<{e.diag}|{e.nid}|space>"
             ev_ok = False
